@@ -100,10 +100,11 @@ def functions_of(c: dict) -> tuple[dict, dict]:
     site: dict = {}
 
     def add(tag: str, where: tuple, f: dict):
-        key = json.dumps([list(f["params"]), f["e"]], sort_keys=True)
+        body = list(f.get("body") or [{"k": "ret", "e": f["e"]}])     # what Python runs (PyFn statements)
+        key = json.dumps([list(f["params"]), body], sort_keys=True)
         if key not in by_record:
             by_record[key] = tag
-            fns[tag] = {"params": list(f["params"]), "body": [{"k": "ret", "e": f["e"]}]}
+            fns[tag] = {"params": list(f["params"]), "body": body}
         site[where] = by_record[key]
 
     for j, (n, v) in enumerate(c["init"].items()):
@@ -120,6 +121,11 @@ def functions_of(c: dict) -> tuple[dict, dict]:
             if co["k"] == "calc":
                 add(f"f_r{j}_s{m}", ("st", n, v), co["fn"])
     return fns, site
+
+
+def multi_statement(f: dict) -> bool:
+    body = f.get("body")
+    return bool(body) and not (len(body) == 1 and body[0]["k"] == "ret")
 
 
 def shared_functions(c: dict) -> list:
